@@ -1246,6 +1246,16 @@ class SerEval:
             raise Unsupported(f"comparison of an unbounded derived value {x!r}")
         w = len(x.bits)
         mx = (1 << w) - 1
+        # the vector is a whole field as it went onto the wire (bits 0..w-1 of one field whose guards bound it to the
+        # width): what the writer's guards established about the field holds for it
+        if w and all(isinstance(b_, Src) and b_.kind == "f" and b_.idx == i_ and b_.name == x.bits[0].name for i_, b_ in enumerate(x.bits)):
+            lo, hi = run.field_range.get(x.bits[0].name, (-INF, INF))
+            if lo >= 0 and hi <= mx:
+                dec = {"<": (True if hi < k else False if lo >= k else None), "<=": (True if hi <= k else False if lo > k else None),
+                       ">": (True if lo > k else False if hi <= k else None), ">=": (True if lo >= k else False if hi < k else None),
+                       "==": (True if lo == hi == k else False if k < lo or k > hi else None), "!=": (False if lo == hi == k else True if k < lo or k > hi else None)}[sym]
+                if dec is not None:
+                    return dec
         dec = {"<": (True if mx < k else False if k <= 0 else None), "<=": (True if mx <= k else False if k < 0 else None),
                ">": (False if mx <= k else True if k < 0 else None), ">=": (False if mx < k else True if k <= 0 else None),
                "==": (False if k > mx or k < 0 else None), "!=": (True if k > mx or k < 0 else None)}[sym]
